@@ -11,7 +11,7 @@ Definition Z2F_pos (z : Z) : float :=
   else let e := (Z.log2 z - 62)%Z in
        let m := Z.shiftr z e in
        let sticky := if Z.eqb (Z.shiftl m e) z then 0%Z else 1%Z in
-       ldexp (of_uint63 (Uint63.of_Z (Z.lor m sticky))) e.
+       FloatOps.Z.ldexp (of_uint63 (Uint63.of_Z (Z.lor m sticky))) e.
 Definition Z2F (z : Z) : float :=
   if (z <? 0)%Z then PrimFloat.opp (Z2F_pos (- z)) else Z2F_pos z.
 
